@@ -569,6 +569,14 @@ fn rec_59a(c: &str) -> V {
     match bic(ls[i]) { Bic::Ok => { v.push(("bic", s(ls[i]))); acc(v) } Bic::Unspec => V::Unspec("bic.lower-case"), Bic::Bad => V::Reject("bic") }
 }
 /// option B: [/1!a][/34x] [35x]
+/// 53B as the crate's own shipped scenarios use it: a first line without a leading slash in front of the location
+/// (e.g. "NOSTRO-USD-001\nNEW YORK") is treated as a party identifier -- outside the documented [/1!a][/34x] form,
+/// but deliberately supported: Unspecified.
+fn rec_53b(c: &str) -> V {
+    let ls = lines_of(c);
+    if all_ascii(c) && ls.len() == 2 && !ls[0].is_empty() && !ls[0].starts_with('/') && is_x_line(ls[0]) && ls[0].len() <= 34 { return V::Unspec("party-without-slash"); }
+    rec_opt_b(c)
+}
 fn rec_opt_b(c: &str) -> V {
     if c.is_empty() { return V::Unspec("empty"); }
     if !all_ascii(c) { return V::Reject("charset=non-ascii"); }
@@ -720,7 +728,7 @@ fn in_ref35() -> Vec<(&'static str, String)> { vec![i("typ", "CUSTREF-2024-0719"
 fn in_23() -> Vec<(&'static str, String)> { vec![i("typ", "BASREFERENCE"), i("days", "NOT15REF123"), i("min", "CALX"), i("max", format!("PRI{}", xs(11)))] }
 fn in_23b() -> Vec<(&'static str, String)> { vec![i("typ", "CRED"), i("alt", "SPRI")] }
 fn in_23e() -> Vec<(&'static str, String)> { vec![i("typ", "HOLD"), i("info", "PHOB/CALL BEFORE PAYING"), i("max", format!("TELB/{}", xs(35)))] }
-fn in_25() -> Vec<(&'static str, String)> { vec![i("typ", "/AUTH123456789"), i("min", "/A"), i("max", format!("/{}", xs(34)))] }
+fn in_25() -> Vec<(&'static str, String)> { vec![i("typ", "/AUTH123456789"), i("min", "/A"), i("max", format!("/{}", xs(34))), i("bic-like-tail", "/CURRENTACCOUNT01"), i("bic-like-tail11", "/NOSTRO/COBADEFFXXX")] }
 fn in_25a() -> Vec<(&'static str, String)> { vec![i("typ", "/GB82WEST12345698765432"), i("min", "/A"), i("max", format!("/{}", xs(34)))] }
 fn in_25p() -> Vec<(&'static str, String)> { vec![i("typ", "GB82WEST12345698765432\nDEUTDEFF"), i("max", format!("{}\nDEUTDEFF500", xs(35)))] }
 fn in_26t() -> Vec<(&'static str, String)> { vec![i("typ", "K90"), i("alt", "PAY")] }
@@ -732,7 +740,7 @@ fn in_32dca() -> Vec<(&'static str, String)> { vec![i("typ", "240719USD1000,50")
 fn in_ccyamt() -> Vec<(&'static str, String)> { vec![i("typ", "EUR500,00"), i("min", "USD0,01"), i("max", "GBP9999999999,99"), i("jpy", "JPY125000"), i("kwd", "KWD1,500")] }
 fn in_34f() -> Vec<(&'static str, String)> { vec![i("typ", "USD5000,00"), i("ind-d", "USDD2500,00"), i("ind-c", "EURC0,01"), i("max", "GBP999999999999,99")] }
 fn in_36() -> Vec<(&'static str, String)> { vec![i("typ", "1,25"), i("min", "0,0001"), i("max", "99999,99999"), i("alt", "0,9375")] }
-fn in_37h() -> Vec<(&'static str, String)> { vec![i("typ", "C2,5000"), i("neg", "DN0,2500"), i("max", "C9999999,9999"), i("min", "D0,0001")] }
+fn in_37h() -> Vec<(&'static str, String)> { vec![i("typ", "C2,5000"), i("neg", "DN0,2500"), i("max", "C9999999,9999"), i("min", "D0,0001"), i("neg-zero", "CN0,0000")] }
 fn in_50() -> Vec<(&'static str, String)> { vec![i("typ", "ACME CORPORATION\n12 MAIN STREET"), i("min", "A"), i("max", format!("{}\n{}\n{}\n{}", xs(35), xs(35), xs(35), xs(35)))] }
 fn in_50a() -> Vec<(&'static str, String)> { vec![i("typ", "/12345678\n1/ACME CORPORATION\n2/12 MAIN STREET"), i("min", "1/A"), i("max", format!("/{}\n1/{}\n2/{}\n3/{}\n4/{}", xs(34), xs(33), xs(33), xs(33), xs(33)))] }
 fn in_50f() -> Vec<(&'static str, String)> { vec![i("typ", "12345678\nDEUTDEFF"), i("full", "12345678\n/PARTY01\nACME CORPORATION\n12 MAIN STREET\nDEUTDEFFXXX"), i("max", format!("{}\n/{}\n{}\n{}\n{}\n{}\nDEUTDEFF500", xs(35), xs(34), xs(35), xs(35), xs(35), xs(35)))] }
@@ -769,7 +777,7 @@ fn in_76() -> Vec<(&'static str, String)> { in_txt(6, 35) }
 fn in_77a() -> Vec<(&'static str, String)> { in_txt(20, 35) }
 fn in_77b() -> Vec<(&'static str, String)> { in_txt(3, 35) }
 fn in_77t() -> Vec<(&'static str, String)> { vec![i("typ", "/UEDI/UNH+123+INVOIC:D:96A:UN"), i("min", "A"), i("long", xs(900))] }
-fn in_79() -> Vec<(&'static str, String)> { in_txt(35, 50) }
+fn in_79() -> Vec<(&'static str, String)> { let mut v = in_txt(35, 50); v.push(i("code", "/DUPL/DUPLICATE PAYMENT\nSECOND LINE")); v }
 fn in_86() -> Vec<(&'static str, String)> { in_txt(6, 65) }
 fn in_90() -> Vec<(&'static str, String)> { vec![i("typ", "5USD12500,50"), i("min", "0EUR0,00"), i("max", "99999GBP999999999999,99")] }
 
@@ -793,7 +801,7 @@ pub fn kinds() -> &'static Vec<Kind> {
         k!("50C", "Field50C", rec_bic_only, in_bic), k!("50L", "Field50L", rec_50l, in_50l), k!("50G", "Field50G", rec_50g, in_50g), k!("50H", "Field50H", rec_50h, in_50h),
         k!("51A", "Field51A", rec_opt_a, in_opt_a),
         k!("52A", "Field52A", rec_opt_a, in_opt_a), k!("52B", "Field52B", rec_opt_b, in_opt_b), k!("52C", "Field52C", rec_opt_c, in_opt_c), k!("52D", "Field52D", rec_opt_d, in_opt_d),
-        k!("53A", "Field53A", rec_opt_a, in_opt_a), k!("53B", "Field53B", rec_opt_b, in_opt_b), k!("53D", "Field53D", rec_opt_d, in_opt_d),
+        k!("53A", "Field53A", rec_opt_a, in_opt_a), k!("53B", "Field53B", rec_53b, in_opt_b), k!("53D", "Field53D", rec_opt_d, in_opt_d),
         k!("54A", "Field54A", rec_opt_a, in_opt_a), k!("54B", "Field54B", rec_opt_b, in_opt_b), k!("54D", "Field54D", rec_opt_d, in_opt_d),
         k!("55A", "Field55A", rec_opt_a, in_opt_a), k!("55B", "Field55B", rec_opt_b, in_opt_b), k!("55D", "Field55D", rec_opt_d, in_opt_d),
         k!("56A", "Field56A", rec_opt_a, in_opt_a), k!("56C", "Field56C", rec_opt_c, in_opt_c), k!("56D", "Field56D", rec_opt_d, in_opt_d),
